@@ -58,7 +58,12 @@ D_UNP = dict(rs("t/d", [["string", "a"], ["varint", "n"]], ["'vu'", "3"]), via=[
 D_MERGE = dict(rs("t/d", [["string", "a"], ["boolean", "c"]], ["'vm'", "True"]), via=["merge", 1])
 AL1 = rs("t/al", [["string", "s"], ["net.ipaddress", "ip"]], ["'x'", "'1.2.3.4'"])
 AL2 = rs("t/al", [["wstring", "s"], ["net.IPAddress", "ip"]], ["'x'", "'1.2.3.4'"])
-KINDS = {"D_BASE": D_BASE, "D_EXT": D_EXT, "D_CLONE": D_CLONE, "D_STR": D_STR, "D_UNP": D_UNP, "D_MERGE": D_MERGE, "AL1": AL1, "AL2": AL2, "J_BAD": J_BAD, "J_OK": J_OK, "NJ_BAD": NJ_BAD, "NJ_OK": NJ_OK, "F2_BAD": F2_BAD, "F2_OK": F2_OK, "U1": U1, "U2": U2, "G_AB": G_AB, "G_ALT": G_ALT, "G_AA2": G_AA2, "F_BAD": F_BAD, "F_OK": F_OK, "NF_BAD": NF_BAD, "NF_OK": NF_OK, "A": A, "B": B, "A2": A2, "C": C, "N_A": N_A, "N_X": N_X, "G": G, "G_Y": G_Y, "G_B": G_B, "N_B": N_B}
+E0 = rs("t/empty0", [], [])  # a record type without fields
+N_E0 = rs("t/holdsempty", [["record", "sub"]], [E0])
+G_E0 = {"group": "g/e0", "members": [E0, C]}
+G_GEN = {"group": "g/gen", "members": [Y, C], "members_as": "generator"}  # members handed over as a one-shot iterable
+G_MAP = {"group": "g/map", "members": [X, A2], "members_as": "map"}
+KINDS = {"E0": E0, "N_E0": N_E0, "G_E0": G_E0, "G_GEN": G_GEN, "G_MAP": G_MAP, "D_BASE": D_BASE, "D_EXT": D_EXT, "D_CLONE": D_CLONE, "D_STR": D_STR, "D_UNP": D_UNP, "D_MERGE": D_MERGE, "AL1": AL1, "AL2": AL2, "J_BAD": J_BAD, "J_OK": J_OK, "NJ_BAD": NJ_BAD, "NJ_OK": NJ_OK, "F2_BAD": F2_BAD, "F2_OK": F2_OK, "U1": U1, "U2": U2, "G_AB": G_AB, "G_ALT": G_ALT, "G_AA2": G_AA2, "F_BAD": F_BAD, "F_OK": F_OK, "NF_BAD": NF_BAD, "NF_OK": NF_OK, "A": A, "B": B, "A2": A2, "C": C, "N_A": N_A, "N_X": N_X, "G": G, "G_Y": G_Y, "G_B": G_B, "N_B": N_B}
 
 CONF = {}  # set in main(): {"packer": "binary"|"json", "m": int, "kinds": [...]}
 
@@ -72,6 +77,7 @@ def kinds_for(packer, names):
 
 CORE = ["A", "B", "A2", "C", "N_A", "N_X", "G", "G_Y", "G_B", "N_B", "G_AB"]
 SPECIAL = ["A", "C", "G", "G_ALT", "G_AA2", "F_BAD", "F_OK", "NF_BAD", "NF_OK", "F2_BAD", "F2_OK", "U1", "U2"]
+ODD = ["A", "C", "E0", "N_E0", "G_E0", "G_GEN", "G_MAP", "A2"]
 DERIVED = ["A", "G", "D_BASE", "D_EXT", "D_CLONE", "D_STR", "D_UNP", "D_MERGE", "AL1", "AL2"]
 JSPECIAL = ["A", "C", "J_BAD", "J_OK", "NJ_BAD", "NJ_OK", "F_OK", "U1", "U2", "N_X"]
 
@@ -610,6 +616,8 @@ def main(tier, seed, workers=None):
         ("binary", 1, CORE, 12),
         ("binary", 1, SPECIAL, 12),
         ("binary", 1, DERIVED, 12),
+        ("binary", 1, ODD, 12),
+        ("json", 1, kinds_for("json", ODD), 12),
         ("binary+werror", 1, ["A", "B", "A2", "C", "N_A", "G", "G_B", "D_EXT", "AL2"], 12),
         ("json", 1, kinds_for("json", DERIVED), 12),
         ("json+werror", 1, ["A", "B", "A2", "C", "N_A", "D_EXT", "AL2"], 12),
